@@ -391,19 +391,38 @@ def Tget_range_restriction_tag(T):
         if restriction is None:
             return
 
-        if cls.Attributes.gt != T.Attributes.gt:
+        has_gt = cls.Attributes.gt != T.Attributes.gt
+        has_ge = cls.Attributes.ge != T.Attributes.ge
+        has_lt = cls.Attributes.lt != T.Attributes.lt
+        has_le = cls.Attributes.le != T.Attributes.le
+
+        # xml schema does not take an inclusive and an exclusive bound for the
+        # same side of one type. the tighter one says it all.
+        if has_gt and has_ge:
+            if cls.Attributes.gt >= cls.Attributes.ge:
+                has_ge = False
+            else:
+                has_gt = False
+
+        if has_lt and has_le:
+            if cls.Attributes.lt <= cls.Attributes.le:
+                has_le = False
+            else:
+                has_lt = False
+
+        if has_gt:
             elt = etree.SubElement(restriction, XSD('minExclusive'))
             elt.set('value', prot.to_unicode(cls, cls.Attributes.gt))
 
-        if cls.Attributes.ge != T.Attributes.ge:
+        if has_ge:
             elt = etree.SubElement(restriction, XSD('minInclusive'))
             elt.set('value', prot.to_unicode(cls, cls.Attributes.ge))
 
-        if cls.Attributes.lt != T.Attributes.lt:
+        if has_lt:
             elt = etree.SubElement(restriction, XSD('maxExclusive'))
             elt.set('value', prot.to_unicode(cls, cls.Attributes.lt))
 
-        if cls.Attributes.le != T.Attributes.le:
+        if has_le:
             elt = etree.SubElement(restriction, XSD('maxInclusive'))
             elt.set('value', prot.to_unicode(cls, cls.Attributes.le))
 
